@@ -662,7 +662,27 @@ def load_stage(chk, schemas):
 
     rng = chk.rng
     n = 250 if chk.tier == "quick" else 2500
-    exts = [m.Extension() for m in (http, file, m3u, softwaremixer, stream)]
+    from mopidy.config import schemas as S
+    from mopidy.config import types as T
+
+    def synthetic(name):
+        sc = S.ConfigSchema(name)
+        sc["enabled"] = T.Boolean(optional=True)
+        for k in ("a", "b", "c", "mixer"):
+            sc[k] = T.String(optional=True)
+        return sc
+
+    # extension schemas offered to the loads of this session: the five bundled ones and two
+    # synthetic ones whose sections ("alpha", "beta") the generated files write into.  Every load
+    # gets another subset (sometimes one schema twice): one process, many loads.
+    ext_pool = [(m.Extension().get_config_schema(), m.Extension().get_default_config())
+                for m in (http, file, m3u, softwaremixer, stream)]
+    ext_pool += [(synthetic("alpha"), "[alpha]\nenabled = true\n"), (synthetic("beta"), "[beta]\nenabled =\n")]
+    ext_asts = [schema_ast(sc) for sc, _ in ext_pool]
+    n_core = len(C._schemas)
+    core_snapshot = list(C._schemas)
+    core_asts = [schema_ast(sc) for sc in core_snapshot]
+    state_reported = []
     stacks = [c14.gen_stack(rng) for _ in range(n)]
     cdir = vlib.VERIF / "corpus" / "C14"
     if cdir.is_dir():
@@ -672,7 +692,14 @@ def load_stage(chk, schemas):
         stacks = [chk.replay_case["stack"]]
     for stack in stacks:
         stack = json.loads(json.dumps(stack))
-        case = {"stage": "load", "stack": stack}
+        chosen = stack.get("ext_choice")
+        if chosen is None:
+            chosen = [i for i in range(len(ext_pool)) if rng.random() < 0.6]
+            if chosen and rng.random() < 0.15:
+                chosen.append(chosen[0])           # the same schema passed twice
+        case = {"stage": "load", "stack": {**stack, "ext_choice": chosen}}
+        these = [ext_pool[i] for i in chosen]
+        call_asts = core_asts + [ext_asts[i] for i in dict.fromkeys(chosen)]
         mat = c14.Materialised(stack)
         captured = {}
         real_validate, real_fetch = C._validate, C.keyring.fetch
@@ -687,11 +714,14 @@ def load_stage(chk, schemas):
             with c14.Faults(mat), rec.active():
                 C._validate, C.keyring.fetch = spy, (lambda: list(keyring))
                 try:
-                    cfg, errs = C.load(list(mat.paths), [e.get_config_schema() for e in exts],
-                                       [e.get_default_config() for e in exts]
+                    cfg, errs = C.load(list(mat.paths), [sc for sc, _ in these],
+                                       [d for _, d in these]
                                        + [c14.render_lines(d, 17 + i) for i, d in enumerate(stack["defaults"])],
-                                       [tuple(o) for o in stack["overrides"]])
+                                       c14.parse_overrides(stack))
                     out = ("ok", cfg, errs)
+                    # what a fresh process would answer: validation of the same raw config against a
+                    # pristine copy of the core schemas plus exactly the schemas passed to THIS call
+                    fresh = real_validate(captured["raw"], core_snapshot + [sc for sc, _ in these])
                 except Exception as e:  # noqa: BLE001
                     out = ("raise", type(e).__name__)
                 finally:
@@ -703,17 +733,29 @@ def load_stage(chk, schemas):
         chk.dist("load:outcome=" + (out[0] if out[0] == "ok" else out[1]))
         for sh in shapes:
             chk.dist("load:dir-member=" + sh)
+        chk.dist(f"load:ext-schemas={len(set(chosen))}")
+        if (len(C._schemas) != n_core or any(a is not b for a, b in zip(C._schemas, core_snapshot))) and not state_reported:
+            state_reported.append(True)
+            chk.monitor_failure("load_is_function_of_arguments", {"call": "load", "what": "module-state"},
+                                f"config.load changed the module-level core schema list ({n_core} -> {len(C._schemas)} "
+                                "entries): later loads in this process see schemas they were not given", case)
         if out[0] != "ok":
             chk.monitor_failure("types_only_valueerror", {"call": "load", "exception": out[1]},
                                 f"{out[1]} escaped config.load on real files", case)
             continue
+        if repr(sorted(fresh[0])) != repr(sorted(out[1])) or repr(sorted(fresh[1])) != repr(sorted(out[2])) or any(
+                sorted(fresh[0][sec_]) != sorted(out[1][sec_]) for sec_ in fresh[0]):
+            chk.monitor_failure("load_is_function_of_arguments", {"call": "load", "what": "result"},
+                                "config.load's result differs from validating the same raw config against the core "
+                                "schemas plus the schemas passed to this call (sections: "
+                                f"{sorted(out[1])} vs {sorted(fresh[0])})", case)
         raw = {sec: {k: (v.decode(errors="surrogateescape") if isinstance(v, bytes) else v) for k, v in kv.items()}
                for sec, kv in captured.get("raw", {}).items()}
         if any(not isinstance(v, str) for kv in raw.values() for v in kv.values()):
             chk.monitor_failure("result_complete_sound", {"call": "load", "what": "non-text-raw-value"},
                                 "config.load handed a non-text raw value to the schemas", case)
             continue
-        monitor_validate(chk, schemas, raw, out, case)
+        monitor_validate(chk, call_asts, raw, out, case)
 
 
 # ------------------------------------------------------------------ search hook
